@@ -101,7 +101,13 @@ class _Gen:
         if not self.o.sleep or self.chance(1, 4):
             return 0.0
         base = ref if ref > 0 else 1e-3
-        return base * self.draw(logf(lo, hi))
+        val = base * self.draw(logf(lo, hi))
+        if "F18" in self.o.avoid and val < 1e-7:
+            # known finding F18: currents at or below numpy's default atol (1e-8 A)
+            self.excluded["F18_current_below_1e-7"] = self.excluded.get(
+                "F18_current_below_1e-7", 0) + 1
+            val = 1e-7
+        return val
 
     # ---- structure -------------------------------------------------------------------
     def make(self):
